@@ -60,6 +60,6 @@ LEVEL_NOTE = ("Trusted: Lean kernel; axioms propext/Classical.choice/Quot.sound 
               "the pooled classes; unique, pluck, ~, eomonth, head/tail, `list << v`, Vector.new and the broadcast str/int/float/date "
               "methods and properties have no dtype rule in the model (Op.opaque: the model refuses, the real result is judged by "
               "truthfulness alone — exhaustively over leaf dtypes x nullable x length 0/1/3 and inside random programs); nested "
-              "vectors, @ and rename are not modelled; `_Date` dispatch is modelled by the current dtype kind (a date vector promoted in place to datetime is "
-              "still a _Date object: such steps are judged by truthfulness only). The outputs of other checks' generators are not "
+              "vectors, @ and rename are not modelled; `_Date` dispatch is modelled by the current dtype kind (true of the code since the repair that makes a "
+              "date vector promoted in place to datetime a plain Vector). The outputs of other checks' generators are not "
               "fed through this check (DESIGN 5.C03 X(iii)): the table operations are generated here instead.")
